@@ -3,6 +3,7 @@
 package harness
 
 import (
+	"errors"
 	"context"
 	"fmt"
 	"strings"
@@ -19,6 +20,32 @@ type c06Case struct {
 	Role  string   `json:"role"`  // client | server
 	Stage string   `json:"stage"` // see stagesFor
 	Ops   []string `json:"ops"`   // order in which the send operations are attempted
+	Via   string   `json:"via,omitempty"` // "" = the channel's own methods | handler-sender = the Sender a dispatch-loop handler was given while the session was established (client role, stages after establishment)
+}
+
+// what a handler keeps: the Sender it was called with
+type keptSender struct{ s lime.Sender }
+
+func (k keptSender) SendMessage(ctx context.Context, m *lime.Message) error { return k.s.SendMessage(ctx, m) }
+func (k keptSender) SendNotification(ctx context.Context, n *lime.Notification) error {
+	return k.s.SendNotification(ctx, n)
+}
+func (k keptSender) SendRequestCommand(ctx context.Context, c *lime.RequestCommand) error {
+	return k.s.SendRequestCommand(ctx, c)
+}
+func (k keptSender) SendResponseCommand(ctx context.Context, c *lime.ResponseCommand) error {
+	return k.s.SendResponseCommand(ctx, c)
+}
+func (k keptSender) ProcessCommand(context.Context, *lime.RequestCommand) (*lime.ResponseCommand, error) {
+	return nil, errors.New("a handler's Sender has no ProcessCommand")
+}
+
+func viaHandlerStage(stage string) bool {
+	switch stage {
+	case "established", "finished", "failed-after-established", "peer-closed":
+		return true
+	}
+	return false
 }
 
 var c06Ops = []string{"SendMessage", "SendNotification", "SendRequestCommand", "SendResponseCommand", "ProcessCommand"}
@@ -282,7 +309,38 @@ func runC06Client(c *c06Case) *c06Obs {
 	authReq := M{"id": "A", "from": from, "state": "authenticating", "schemeOptions": []string{"guest"}}
 	est := M{"id": "A", "from": from, "to": "alice@cli.example/home", "state": "established"}
 	step := func(m M) { _ = peer.SendEnv(m); synctest.Wait(); peer.Drain() }
-	establish := func() { start(); step(authReq); step(est) }
+	var snd sender = cc
+	lctx, lcancel := context.WithCancel(context.Background())
+	defer lcancel()
+	establish := func() {
+		start()
+		step(authReq)
+		step(est)
+		if c.Via == "handler-sender" {
+			// a dispatch loop runs; its message handler keeps the Sender it is given
+			kept := make(chan lime.Sender, 1)
+			mux := &lime.EnvelopeMux{}
+			mux.MessageHandlerFunc(nil, func(_ context.Context, _ *lime.Message, s lime.Sender) error {
+				select {
+				case kept <- s:
+				default:
+				}
+				return nil
+			})
+			wg.Add(1)
+			go func() {
+				defer wg.Done()
+				_ = Protect(func() { _ = mux.ListenClient(lctx, cc) })
+			}()
+			step(M{"id": "m0", "from": from, "type": "text/plain", "content": "hello"})
+			select {
+			case s := <-kept:
+				snd = keptSender{s}
+			default:
+				obs.Note = "harness: the handler was not called"
+			}
+		}
+	}
 	released := false
 	release := func() {
 		if !released {
@@ -356,13 +414,14 @@ func runC06Client(c *c06Case) *c06Obs {
 		// made of the envelope
 		obs.Reached = true
 	}
-	doSends(cc, c.Ops, obs)
+	doSends(snd, c.Ops, obs)
 	synctest.Wait()
 	peer.Drain()
 	obs.WireData = dataEnvelopes(cl.Captured())
 	obs.PeerData = countData(peer.Got)
 	release()
 	cancel()
+	lcancel()
 	_ = sv.Close()
 	wg.Wait()
 	_ = cc.Close()
@@ -375,6 +434,13 @@ func runC06Client(c *c06Case) *c06Obs {
 func judgeC06Sends(c *c06Case, obs *c06Obs, o *Outcome) {
 	o.Class("role=" + c.Role)
 	o.Class("stage=" + c.Stage)
+	if c.Via != "" {
+		o.Class("via=" + c.Via)
+	}
+	if strings.HasPrefix(obs.Note, "harness:") {
+		o.Fail("C06/harness/"+c.Role+"/"+c.Stage, "%s", obs.Note)
+		return
+	}
 	if !obs.Reached {
 		o.Class("stage-not-reached")
 		o.Fail("C06/harness/stage-not-reached/"+c.Role+"/"+c.Stage, "state at injection time is %q", obs.StateAt)
@@ -402,14 +468,21 @@ func judgeC06Sends(c *c06Case, obs *c06Obs, o *Outcome) {
 	for _, op := range c.Ops {
 		r := obs.Results[op]
 		if r == "" {
-			o.Fail("C06/send-accepted-outside-established/"+c.Role+"/"+c.Stage+"/"+op, "%s returned nil in stage %s (state %s)", op, c.Stage, obs.StateAt)
+			o.Fail("C06/send-accepted-outside-established/"+c.Role+"/"+c.Stage+"/"+op+viaTag(c), "%s returned nil in stage %s (state %s)", op, c.Stage, obs.StateAt)
 		} else if strings.HasPrefix(r, "panic") {
 			o.Fail("C06/send-panicked/"+c.Role+"/"+c.Stage+"/"+op, "%s", r)
 		}
 	}
 	if len(obs.WireData) > 0 {
-		o.Fail("C06/data-on-wire-outside-established/"+c.Role+"/"+c.Stage, "in stage %s the channel wrote %d non-session envelope(s): %s", c.Stage, len(obs.WireData), short(obs.WireData[0]))
+		o.Fail("C06/data-on-wire-outside-established/"+c.Role+"/"+c.Stage+viaTag(c), "in stage %s the channel wrote %d non-session envelope(s): %s", c.Stage, len(obs.WireData), short(obs.WireData[0]))
 	}
+}
+
+func viaTag(c *c06Case) string {
+	if c.Via == "" {
+		return ""
+	}
+	return "/via-" + c.Via
 }
 
 func runC06(c *c06Case) *c06Obs {
@@ -439,6 +512,23 @@ func TestC06Stages(t *testing.T) {
 				judgeC06Sends(c, obs, o)
 				rec.Eval(c, o)
 			}
+			if role == "client" && viaHandlerStage(stage) {
+				// the same through the Sender a dispatch-loop handler was given earlier and kept
+				four := c06Ops[:4]
+				lists := [][]string{four, {four[3], four[2], four[1], four[0]}}
+				for _, op := range four {
+					lists = append(lists, []string{op})
+				}
+				for _, ops := range lists {
+					c := &c06Case{Role: role, Stage: stage, Ops: ops, Via: "handler-sender"}
+					o := &Outcome{}
+					var obs *c06Obs
+					rec.Journal(c)
+					synctest.Test(t, func(t *testing.T) { obs = runC06(c) })
+					judgeC06Sends(c, obs, o)
+					rec.Eval(c, o)
+				}
+			}
 		}
 	}
 	rec.Note("exhaustive", "true")
@@ -450,6 +540,10 @@ func TestC06(t *testing.T) {
 		role := rapid.SampledFrom([]string{"server", "client"}).Draw(rt, "role")
 		c := &c06Case{Role: role, Stage: rapid.SampledFrom(stagesFor(role)).Draw(rt, "stage")}
 		c.Ops = rapid.SliceOfNDistinct(rapid.SampledFrom(c06Ops), 1, 5, func(s string) string { return s }).Draw(rt, "ops")
+		if role == "client" && viaHandlerStage(c.Stage) && rapid.Bool().Draw(rt, "viaHandler") {
+			c.Via = "handler-sender"
+			c.Ops = rapid.SliceOfNDistinct(rapid.SampledFrom(c06Ops[:4]), 1, 4, func(s string) string { return s }).Draw(rt, "opsVia")
+		}
 		o := &Outcome{}
 		var obs *c06Obs
 		rec.Journal(c)
